@@ -144,7 +144,6 @@ type thread struct {
 	faultRet int64
 }
 
-
 // DefaultClassify implements the path classes of SimpleDB's tasks.
 func DefaultClassify(nr, path, path2 string) string {
 	p := path
